@@ -186,7 +186,8 @@ def st_op(draw, key, rich=True):
         k = draw(st.sampled_from(["deposit", "deposit", "withdraw", "buy", "buy", "buy", "sell", "sell"]))
         if k in ("deposit", "withdraw"):
             return [key, k, f]
-        return [key, k, draw(st.integers(0, 3)), draw(st.sampled_from(["0.4", "1", "2", "7", "45", "5000"]))]
+        mode = draw(st.sampled_from([None, None, None, ["cap", "1.02"], ["cap", "1.5"], ["cap", "3"], ["token", 0], ["token", 1], ["usd", 0]]))
+        return [key, k, draw(st.integers(0, 3)), draw(st.sampled_from(["0.4", "1", "2", "7", "45", "5000"])), mode]
     if key == "glp":
         k = draw(st.sampled_from(["buy_glp", "buy_glp", "sell_glp"]))
         return [key, k, draw(st.sampled_from(["weth", "usdc", "wavax"])), f]
@@ -212,13 +213,13 @@ def market_keys(order):
 
 
 @st.composite
-def st_prog(draw, order, nbars, mode="loop", max_ops=14):
+def st_prog(draw, order, nbars, mode="loop", max_ops=14, open_bars=()):
     keys = market_keys(order) + ["broker"]
     prog = []
     for _ in range(draw(st.integers(1, max_ops))):
         key = draw(st.sampled_from(keys))
         bar = draw(st.integers(0, nbars - 1)) if mode == "loop" else 0
-        phase = draw(st.sampled_from(["before", "trigger", "on", "on", "after"]))
+        phase = draw(st.sampled_from(["before", "trigger", "on", "on", "after", "notify"] if mode == "loop" else ["on"]))
         prog.append([bar, phase] + draw(st_op(key)))
     # preludes: with probability 1/2 per market, operations that establish a holding early (so later ones meet state)
     pre = []
@@ -242,7 +243,8 @@ def st_prog(draw, order, nbars, mode="loop", max_ops=14):
             pre.append([pb, ph, "sq", "open", draw(st.sampled_from(["1", "3"])), draw(st.sampled_from(["0.5", "0.9", "0.999"])), lp])
         elif key == "opt":
             pre.append([pb, ph, "opt", "deposit", "0.5"])
-            pre.append([pb, draw(st.sampled_from(["before", "on"])), "opt", "buy", draw(st.integers(0, 2)), draw(st.sampled_from(["1", "7"]))])
+            ob = draw(st.sampled_from(list(open_bars))) if open_bars and mode == "loop" else pb  # trades need an open (on-the-hour) bar
+            pre.append([ob, draw(st.sampled_from(["before", "on"])), "opt", "buy", draw(st.integers(0, 2)), draw(st.sampled_from(["1", "7"])), draw(st.sampled_from([None, ["cap", "3"], ["cap", "1.5"], ["token", 0]]))])
         elif key == "glp":
             pre.append([pb, ph, "glp", "buy_glp", draw(st.sampled_from(["weth", "usdc"])), "0.2"])
         elif key == "gm":
@@ -260,7 +262,7 @@ def st_prog(draw, order, nbars, mode="loop", max_ops=14):
             motif = [["squni", "buy", "0.2"], ["squni", "add", draw(st.integers(-6, -1)), draw(st.integers(7, 14)), "0.5", "0.2"], ["sq", "open", "1", draw(st.sampled_from(["0", "0.5"])), True],
                      draw(st.sampled_from([["squni", "remove", 0, None, True], ["squni", "remove_all"], ["squni", "collect", 0, None, None], ["sq", "lp_withdraw", 0], ["squni", "add", 0, 1, "0.1", "0.1"]])), ["sq", "burn_withdraw", 0, over, over]]
         elif mk == "opt":
-            motif = [["opt", "deposit", "0.5"], ["opt", "buy", 0, "2"], ["opt", "sell", 0, draw(st.sampled_from(["1", "2", "3", "45"]))], ["opt", "withdraw", over]]
+            motif = [["opt", "deposit", "0.5"], ["opt", "buy", 0, "2", draw(st.sampled_from([None, ["cap", "3"], ["usd", 0]]))], ["opt", "sell", 0, draw(st.sampled_from(["1", "2", "3", "45"])), draw(st.sampled_from([None, ["cap", "3"], ["token", 0]]))], ["opt", "withdraw", over]]
         elif mk == "aave":
             motif = [["aave", "supply", "@funded:0", "0.5", True], ["aave", "borrow", draw(st.sampled_from(["WETH", "USDC", "DAI"])), "0.9"], ["aave", "repay", "@debt:0", over, draw(st.booleans()), None], ["aave", "withdraw", "@supplied:0", over]]
         elif mk == "glp":
@@ -268,6 +270,8 @@ def st_prog(draw, order, nbars, mode="loop", max_ops=14):
         else:
             motif = [["gm", "deposit", "0.3", "0.1"], ["gm", "withdraw", over]]
         bar = draw(st.integers(0, nbars - 1)) if mode == "loop" else 0
+        if mk == "opt" and open_bars and mode == "loop":
+            bar = draw(st.sampled_from(list(open_bars)))
         at = draw(st.integers(0, len(prog)))
         prog = prog[:at] + [[bar, "on"] + m for m in motif] + prog[at:]
     if mode == "loop":
@@ -338,5 +342,7 @@ def st_universe(draw, mode="loop", kinds=None, max_bars=8, max_ops=14, need=None
     case["wallet"] = {"USDC": draw(st.sampled_from(["0", "5000", "100000", "100000"])), "WETH": draw(st.sampled_from(["0", "2", "50", "50"])), "OSQTH": draw(st.sampled_from(["0", "0", "30"])),
                       "DAI": draw(st.sampled_from(["0", "20000"])), "ETH": draw(st.sampled_from(["0", "20", "20"])), "WAVAX": draw(st.sampled_from(["0", "500"]))}
     nbars = (start + n - 1) // k - start // k + 1
-    case["prog"] = draw(st_prog(order, nbars, mode, max_ops))
+    first_bin = start // k
+    open_bars = [b for b in range(nbars) if ((first_bin + b) * k) % 60 == 0 and (first_bin + b) * k >= (start // 60) * 60]
+    case["prog"] = draw(st_prog(order, nbars, mode, max_ops, open_bars))
     return case
